@@ -6,7 +6,7 @@ import os
 import re
 
 V = os.path.dirname(os.path.dirname(os.path.abspath(__file__)))
-for d in sorted(glob.glob(os.path.join(V, "seeded", "*"))):
+for d in sorted(x for x in glob.glob(os.path.join(V, "seeded", "*")) if os.path.isdir(x)):
     am = os.path.join(d, "agent_meta.json")
     a = json.load(open(am)) if os.path.exists(am) else {}
     old = json.load(open(os.path.join(d, "meta.json"))) if os.path.exists(os.path.join(d, "meta.json")) else {}
@@ -17,7 +17,7 @@ for d in sorted(glob.glob(os.path.join(V, "seeded", "*"))):
     meta = {
         "property": sid[:3],
         "seed": sid,
-        "round": 2 if "-r2-" in sid else 1,
+        "round": next((n for n in (2, 3, 4) if "-r%d-" % n in sid), 1),
         "summary": a.get("summary", ""),
         "breaks": a.get("breaks", ""),
         "needs_to_manifest": a.get("needs_to_manifest", ""),
